@@ -116,6 +116,46 @@ def c03_cli(ctx, res, entries, limit):
                 res.violate("C03/cli/stdout", "`lace run --minimal` prints different program output than the reference machine", detail)
 
 
+def c03_escape_output(ctx, res):
+    """Programs whose own output contains ESC (x1B). How the minimal mode renders the ESC byte itself is
+    an open point (the mode strips colour sequences from what it prints, one write at a time, and the
+    traps write one character at a time) - but every other character the traps specify must arrive, in
+    order: compared with ESC bytes removed on both sides."""
+    d = _dir(ctx, "c03_esc")
+    strings = ["a\x1b[2Jb", "\x1b", "x\x1by", "\x1b[H\x1b[Kdone", "red\x1b[31mtext\x1b[0m.", "1\x1b2\x1b3", "\x1b]0;title\x07after", "q\x1b[2J"]
+    jobs = []
+    for si, st in enumerate(strings):
+        words = "\n".join(".fill x%04x" % ord(c) for c in st) + "\n.fill x0\n"
+        # PUTS of the string, then OUT of each character, then a tail printed by PUTS
+        jobs.append(("puts%d" % si, "lea r0 s\nputs\nlea r0 t\nputs\nhalt\nt .stringz \"|tail\"\ns " + words.replace("\n", "\n", 1), st + "|tail", b""))
+        outs = "".join("ld r0 c%d\nout\n" % k for k in range(len(st)))
+        data = "".join("c%d .fill x%04x\n" % (k, ord(c)) for k, c in enumerate(st))
+        jobs.append(("out%d" % si, outs + "lea r0 t\nputs\nhalt\nt .stringz \"|tail\"\n" + data, st + "|tail", b""))
+        # the characters come in through IN (echoed) / GETC+OUT
+        jobs.append(("echo%d" % si, "ld r1 n\nlp getc\nout\nadd r1 r1 #-1\nbrp lp\nlea r0 t\nputs\nhalt\nn .fill #%d\nt .stringz \"|tail\"\n" % len(st),
+                     st + "|tail", st.encode("latin-1")))
+
+    def one(job):
+        name, src, want, data = job
+        _write(os.path.join(d, name + ".asm"), src)
+        return job, lace(ctx, ["run", name + ".asm", "--minimal"], stdin=data, cwd=d, timeout=30)
+    for (name, src, want, data), r in pmap(one, jobs):
+        res.evaluations += 1
+        res.cls("l2:esc_in_program_output")
+        detail = dict(r.brief(), source=src, input=repr(data), characters_specified=repr(want))
+        if r.rc is None or r.crashed:
+            res.violate("C03/cli/crash", "`lace run` crashed or hung (exit %s) on a program printing ESC" % r.rc, detail)
+            continue
+        body, halted = program_output(r.out)
+        got = body.replace(b"\x1b", b"").rstrip(b"\n")
+        exp = want.encode("latin-1").replace(b"\x1b", b"")
+        if r.rc != 0 or got != exp:
+            detail["program_output_seen"] = repr(body[-300:])
+            res.violate("C03/cli/stdout-after-esc", "`lace run --minimal` (exit %s) lost or changed characters other than ESC itself: saw %r, the traps specify %r (ESC bytes removed on both sides)"
+                        % (r.rc, got[-80:], exp[-80:]), detail)
+    res.require(["l2:esc_in_program_output"], "L2")
+
+
 def c03_objects(ctx, res):
     """Object files whose last words are zero, run through the loader: the implicit HALT stands behind
     the last word of the file, whatever that word is."""
@@ -697,8 +737,43 @@ def c04_cli(ctx, res):
             want = b"".join(int(w).to_bytes(2, "big") for w in e["image"])
             if not os.path.exists(obj) or open(obj, "rb").read() != want:
                 res.violate("C04/cli/image", "`lace compile` accepted the program but did not write the reference image", detail)
+    # `lace run` asks the same question before it runs anything, whatever else lies in the directory: a
+    # (newer) object file with the same stem, left by an earlier `compile` of an earlier version of the
+    # source, answers nothing about the text that is there now
+    d2 = _dir(ctx, "c04_stale")
+    _write(os.path.join(d2, "good.asm"), "lea r0 m\nputs\nhalt\nm .stringz \"STALE\"\n")
+    r0 = lace(ctx, ["compile", "good.asm", "good.lc3"], cwd=d2)
+    good_obj = open(os.path.join(d2, "good.lc3"), "rb").read() if r0.rc == 0 and os.path.exists(os.path.join(d2, "good.lc3")) else None
+    rejected = [ix for ix in range(len(cases)) if cases[ix]["verdict"] == "reject"]
+    rejected = rejected[:24] + rejected[-12:] if not ctx.thorough() else rejected[:300]
+
+    def stale(ix):
+        e = cases[ix]
+        name = "s%d.asm" % ix
+        _write(os.path.join(d2, name), e["source"])
+        old = time.time() - 3600
+        os.utime(os.path.join(d2, name), (old, old))
+        for ext in (".lc3", ".obj"):
+            _write(os.path.join(d2, "s%d%s" % (ix, ext)), good_obj)
+        f = ["-f", "stack"] if e["uses_stack_ext"] else []
+        return ix, lace(ctx, ["run", name, "--minimal"] + f, cwd=d2, timeout=30), lace(ctx, [name] + f, cwd=d2, timeout=30)
+    if good_obj is None:
+        res.inconclusive["the reference object file for the stale-object family could not be compiled"] = 1
+    else:
+        for ix, r, bare in pmap(stale, rejected):
+            e = cases[ix]
+            for how, rr in (("run", r), ("bare", bare)):
+                res.evaluations += 1
+                res.cls("l2:run_with_newer_object_file_of_the_same_stem")
+                detail = dict(rr.brief(), source=e["source"][-800:], reference_verdict="reject", tag=e["tag"], invoked=how,
+                              directory="a newer <stem>.lc3 and <stem>.obj of another (valid) program lie next to the source")
+                if rr.rc is None or rr.crashed:
+                    res.violate("C04/cli/crash", "`lace %s` crashed or hung (exit %s)" % (how, rr.rc), detail)
+                elif rr.rc == 0 or b"STALE" in rr.out:
+                    res.violate("C04/cli/run-accepted-invalid", "`lace %s` ran something (exit %s) for a source the reference predicate rejects" % (how, rr.rc), detail)
     watch_history(ctx, res, cp, "C04", 40)
-    res.require(["l2:compile:accept", "l2:compile:reject", "l2:check:accept", "l2:check:reject", "l2:label_out_of_reach", "watch_recheck"], "L2")
+    res.require(["l2:compile:accept", "l2:compile:reject", "l2:check:accept", "l2:check:reject", "l2:label_out_of_reach", "watch_recheck",
+                 "l2:run_with_newer_object_file_of_the_same_stem"], "L2")
 
 
 # ------------------------------------------------------------------ C08
